@@ -13,6 +13,45 @@ import warnings
 from .model import HEADER
 
 
+def _literal_strings(value, scope, depth=0):
+    """the list of string literals an expression denotes, or None: a list/tuple display of strings,
+    `list(...)`/`tuple(...)` of one, a concatenation `a + b` of two, or a name bound exactly once in
+    `scope` (the function, then the module) to one of these"""
+    if depth > 4 or value is None:
+        return None
+    if isinstance(value, (ast.List, ast.Tuple)):
+        if all(isinstance(e, ast.Constant) and isinstance(e.value, str) for e in value.elts):
+            return [e.value for e in value.elts]
+        return None
+    if isinstance(value, ast.Call) and isinstance(value.func, ast.Name) and value.func.id in ('list', 'tuple') \
+            and len(value.args) == 1 and not value.keywords:
+        return _literal_strings(value.args[0], scope, depth + 1)
+    if isinstance(value, ast.BinOp) and isinstance(value.op, ast.Add):
+        l, r = _literal_strings(value.left, scope, depth + 1), _literal_strings(value.right, scope, depth + 1)
+        return None if l is None or r is None else l + r
+    if isinstance(value, ast.Name):
+        for sc in scope:
+            bound = []
+            for node in ast.walk(sc):
+                if isinstance(node, ast.Assign):
+                    for t in node.targets:
+                        for n in ast.walk(t):
+                            if isinstance(n, ast.Name) and n.id == value.id:
+                                bound.append(node.value if t is n else None)
+                elif isinstance(node, (ast.AugAssign, ast.AnnAssign, ast.For, ast.NamedExpr, ast.comprehension)):
+                    t = node.target
+                    if any(isinstance(n, ast.Name) and n.id == value.id for n in ast.walk(t)):
+                        bound.append(None)
+                elif isinstance(node, ast.Call) and isinstance(node.func, ast.Attribute) \
+                        and isinstance(node.func.value, ast.Name) and node.func.value.id == value.id:
+                    bound.append(None)          # names.append(...) and the like: not a literal any more
+            if len(bound) == 1 and bound[0] is not None:
+                return _literal_strings(bound[0], scope, depth + 1)
+            if bound:
+                return None
+    return None
+
+
 def static_names(cls):
     """field names from the literal `names=[...]` of the class's own _run (None if not literal)"""
     if '_run' not in cls.__dict__:
@@ -35,6 +74,18 @@ def static_names(cls):
                 if kw.arg == 'names' and isinstance(kw.value, (ast.List, ast.Tuple)) \
                         and all(isinstance(e, ast.Constant) for e in kw.value.elts):
                     found = [e.value for e in kw.value.elts]
+            if found is None:
+                # the same table written another way: second positional argument, a name bound once to the
+                # literal in `_run` (or at module level), list(...)/tuple(...), a concatenation of literals
+                value = next((kw.value for kw in node.keywords if kw.arg == 'names'), None)
+                if value is None and len(node.args) >= 2:
+                    value = node.args[1]
+                scope = [tree]
+                try:
+                    scope.append(ast.parse(inspect.getsource(inspect.getmodule(cls))))
+                except Exception:
+                    pass
+                found = _literal_strings(value, scope)
     return found
 
 
